@@ -810,6 +810,11 @@ func (ts *TestScript) applyScriptUpdates() {
 	if len(ts.scriptUpdates) == 0 {
 		return
 	}
+	// This runs outside runLine: a Fatalf below must end the run as failed
+	// rather than let the failNow panic escape.
+	defer catchFailNow(func() {
+		ts.t.FailNow()
+	})
 	for name, content := range ts.scriptUpdates {
 		found := false
 		for i := range ts.archive.Files {
